@@ -117,7 +117,9 @@ class _Rig:
                 p = self.h.get_next_packet()
                 if p is None:
                     break
-                o.pdus.append(p.pdu)
+                # an emitted PDU leaves the handler: what is observed is its value at emission, not an
+                # object the handler (or the put request) may still change
+                o.pdus.append(copy.deepcopy(p.pdu))
         o.ind = self.user.ev[self._n_ind:]
         o.faults = self.fh.ev[self._n_flt:]
         o.fs = self.fs.calls[self._n_fs:]
@@ -182,14 +184,15 @@ class SrcRig(_Rig):
         self.history = []
 
     def put(self, src="/src/file.bin", dst="/dst/file.bin", mode=None, closure=None, dest_id=None,
-            msgs=None):
+            msgs=None, fs_requests=None, flow_label=None, overrides=None):
         o = self._begin(("put",))
         try:
             o.ret = self.h.put_request(PutRequest(
                 destination_id=dest_id or self.ids.dst,
                 source_file=None if src is None else MemPath(src),
                 dest_file=None if dst is None else MemPath(dst),
-                trans_mode=mode, closure_requested=closure, msgs_to_user=msgs))
+                trans_mode=mode, closure_requested=closure, msgs_to_user=msgs, fs_requests=fs_requests,
+                flow_label_tlv=flow_label, fault_handler_overrides=overrides))
         except Exception as e:  # noqa: BLE001
             o.exc = e
         return self._finish(o)
